@@ -151,9 +151,9 @@ class B:
     def __init__(self, u, path, name, fields, block=None):
         self.u, self.path, self.name, self.fields, self.block = u, path, name, fields, block or ("impl %s" % name)
 
-    def fn(self, fname, changes, rules=(), loops=None, proofs=None, requires="", comment="", block=None, props=None, extra=""):
+    def fn(self, fname, changes, rules=(), loops=None, proofs=None, requires="", comment="", block=None, props=None, extra="", path=None):
         spec = (("// %s\n" % comment) if comment else "") + (("requires %s,\n" % requires) if requires else "") + eff(self.fields, changes) + (("\n    " + extra) if extra else "")
-        self.u.fn(self.path, block or self.block, fname, props=props or P, rules=[r_retself, r_inh, r_into, r_iter_param, r_rcnew] + list(rules), key="%s::%s" % (self.name, fname),
+        self.u.fn(path or self.path, block or self.block, fname, props=props or P, rules=[r_retself, r_inh, r_into, r_iter_param, r_rcnew] + list(rules), key="%s::%s" % (self.name, fname),
                   vpath="%s::%s" % (self.name, fname), spec=spec, loops=loops, proofs=proofs)
 
 
@@ -466,7 +466,9 @@ QTYPES = [("src/query/select.rs", "struct", "SelectStatement"), ("src/query/sele
           ("src/query/with.rs", "struct", "WithClause"), ("src/query/with.rs", "struct", "WithQuery"),
           ("src/query/window.rs", "enum", "Frame"), ("src/query/window.rs", "enum", "FrameType"), ("src/query/window.rs", "struct", "FrameClause"), ("src/query/window.rs", "struct", "WindowStatement"),
           ("src/query/on_conflict.rs", "enum", "OnConflictTarget"), ("src/query/on_conflict.rs", "enum", "OnConflictAction"), ("src/query/on_conflict.rs", "enum", "OnConflictUpdate"),
-          ("src/query/on_conflict.rs", "struct", "OnConflict")]
+          ("src/query/on_conflict.rs", "struct", "OnConflict"),
+          ("src/extension/mysql/index.rs", "struct", "IndexHint"), ("src/extension/mysql/index.rs", "enum", "IndexHintType"), ("src/extension/mysql/index.rs", "enum", "IndexHintScope"),
+          ("src/extension/postgres/select.rs", "struct", "TableSample"), ("src/extension/postgres/select.rs", "enum", "SampleMethod")]
 QSTD = {"Vec", "Option", "Box", "String", "bool", "u8", "u16", "u32", "u64", "usize", "i32", "i64", "str", "Self", "crate", "extension", "postgres", "mysql"}
 r_path = make_r_sub("R-path", r"crate::extension::(postgres|mysql)::", "", min_count=0)
 r_pubc = make_r_sub("R-vis", r"pub\(crate\) enum", "pub enum", min_count=0)
@@ -543,7 +545,7 @@ def build_query(u):
         u.emit("#[verifier::external_body]\npub struct %s { _opaque: u8 }\n" % n, kind="spec", key="R-opaque:" + n, props=PQ)
     F = {}
     for f, k, n in QTYPES:
-        t = u.type_item(f, k, n, props=PQ, rules=[r_vis, r_path, r_pubc], keep_derive=(("Clone", "Copy") if n in ("LockType", "LockBehavior", "UnionType", "JoinType") else ()))
+        t = u.type_item(f, k, n, props=PQ, rules=[r_vis, r_path, r_pubc], keep_derive=(("Clone", "Copy") if n in ("LockType", "LockBehavior", "UnionType", "JoinType", "IndexHintType", "IndexHintScope", "SampleMethod") else ()))
         if k == "struct":
             F[n] = fields_of(t)
     u.spec(QTRAITS, "builders::query-traits", props=PQ)
@@ -611,6 +613,13 @@ def build_query(u):
          extra="final(self).lock is Some && final(self).lock->Some_0.tables@.len() == 0,")
     b.fn("with_cte", {"with": "Some(clause.sp_into())"})
     b.fn("window", {"window": "Some((name.sp_iden(), window))"})
+    # dialect extensions: MySQL index hints (appended in call order, with the kind the method is named after), Postgres TABLESAMPLE
+    r_rt = [make_r_sub("R-rawident", r"r#type: IndexHintType::", "r#type: IndexHintType::", min_count=0)]
+    for nm, kind in [("use_index", "Use"), ("force_index", "Force"), ("ignore_index", "Ignore")]:
+        b.fn(nm, {"index_hints@": "old(self).index_hints@.push(IndexHint { index: index.sp_iden(), r#type: IndexHintType::%s, scope: scope })" % kind},
+             block="impl MySqlSelectStatementExt for SelectStatement", path="src/extension/mysql/select.rs", rules=r_rt)
+    b.fn("table_sample", {"table_sample": "Some(TableSample { method: method, percentage: percentage, repeatable: repeatable })"},
+         block="impl PostgresSelectStatementExt for SelectStatement", path="src/extension/postgres/select.rs")
     u.emit("}\n")
 
     # ---- ORDER BY: the trait's default methods, verified ONCE for every implementor against add_order_by's contract ------------------------
@@ -924,6 +933,9 @@ pub trait VQueryStatementBuilder: Sized { spec fn sp_sub_query(self) -> SubQuery
 impl VQueryStatementBuilder for SelectStatement { uninterp spec fn sp_sub_query(self) -> SubQueryStatement; #[verifier::external_body] fn into_sub_query_statement(self) -> SubQueryStatement { unimplemented!() } }
 impl VInto<SimpleExpr> for SimpleExpr { open spec fn sp_into(self) -> SimpleExpr { self } fn into(self) -> SimpleExpr { self } }
 impl VInto<BinOper> for BinOper { open spec fn sp_into(self) -> BinOper { self } fn into(self) -> BinOper { self } }
+// `impl From<PgBinOper> for BinOper` / `From<SqliteBinOper>` (src/extension): the operator wrapped in its dialect's variant
+impl VInto<BinOper> for PgBinOper { open spec fn sp_into(self) -> BinOper { BinOper::PgOperator(self) } #[verifier::external_body] fn into(self) -> BinOper { unimplemented!() } }
+impl VInto<BinOper> for SqliteBinOper { open spec fn sp_into(self) -> BinOper { BinOper::SqliteOperator(self) } #[verifier::external_body] fn into(self) -> BinOper { unimplemented!() } }
 // Expr -> SimpleExpr (`impl From<Expr> for SimpleExpr`: the expression the builder holds): a function of the builder (uninterpreted here)
 impl VInto<SimpleExpr> for Expr { uninterp spec fn sp_into(self) -> SimpleExpr; #[verifier::external_body] fn into(self) -> SimpleExpr { unimplemented!() } }
 // LikeExpr -> SimpleExpr (pattern [ESCAPE c]): a function of the pattern (uninterpreted here; its rendering is unit prec's lemma_escape_ok)
@@ -941,8 +953,10 @@ BINOPS = [("add", "Add"), ("and", "And"), ("div", "Div"), ("eq", "Equal"), ("gt"
 
 def build_expr(u):
     u.emit("use vstd::prelude::*;\nverus! {\n")
-    for n in ["DynIden", "Value", "ColumnRef", "SubQueryStatement", "CaseStatement", "FunctionCall", "SelectStatement", "Expr", "LikeExpr", "PgBinOper", "SqliteBinOper"]:
+    for n in ["DynIden", "Value", "ColumnRef", "SubQueryStatement", "CaseStatement", "FunctionCall", "SelectStatement", "Expr", "LikeExpr"]:
         u.emit("#[verifier::external_body]\npub struct %s { _opaque: u8 }\n" % n, kind="spec", key="R-opaque:" + n, props=PE)
+    u.type_item("src/extension/postgres/mod.rs", "enum", "PgBinOper", props=PE)
+    u.type_item("src/extension/sqlite/mod.rs", "enum", "SqliteBinOper", props=PE)
     u.type_item("src/types.rs", "enum", "UnOper", props=PE)
     u.type_item("src/types.rs", "enum", "BinOper", props=PE)
     u.type_item("src/types.rs", "enum", "SubQueryOper", props=PE)
@@ -998,6 +1012,22 @@ def build_expr(u):
     u.fn(E, B, "binary", props=PE, key="ExprTrait::binary[impl]", vpath="<T as ExprTrait>::binary", rules=rr, no_canary=True)
     u.fn(E, B, "unary", props=PE, key="ExprTrait::unary[impl]", vpath="<T as ExprTrait>::unary", rules=rr, no_canary=True, params=["o"])
     u.emit("}\n")
+    # ---- the dialect extensions: PgExpr / SqliteExpr default methods, verified once against ExprTrait::binary's contract --------------------------------
+    for path, tr, ops in [("src/extension/postgres/expr.rs", "PgExpr", [("concatenate", "right", "PgBinOper::Concatenate"), ("concat", "right", "PgBinOper::Concatenate"), ("matches", "expr", "PgBinOper::Matches"),
+                                                                      ("contains", "expr", "PgBinOper::Contains"), ("contained", "expr", "PgBinOper::Contained"),
+                                                                      ("get_json_field", "right", "PgBinOper::GetJsonField"), ("cast_json_field", "right", "PgBinOper::CastJsonField")]),
+                          ("src/extension/sqlite/expr.rs", "SqliteExpr", [("glob", "right", "SqliteBinOper::Glob"), ("matches", "right", "SqliteBinOper::Match"),
+                                                                         ("get_json_field", "right", "SqliteBinOper::GetJsonField"), ("cast_json_field", "right", "SqliteBinOper::CastJsonField")])]:
+        wrap = "BinOper::PgOperator" if tr == "PgExpr" else "BinOper::SqliteOperator"
+        u.emit("pub trait %s: ExprTrait {\n" % tr)
+        for nm, arg, op in ops:
+            u.fn(path, "trait %s: ExprTrait" % tr, nm, ret="r", props=PE, key="%s::%s" % (tr, nm), vpath="%s::%s" % (tr, nm), rules=rr,
+                 spec="ensures\n    // the %s operator the method is named after, with exactly the operands given\n    r == bin(self.sp_expr(), %s(%s), %s.sp_into())," % (tr[:-4], wrap, op, arg))
+        if tr == "PgExpr":
+            for nm, op in [("ilike", "ILike"), ("not_ilike", "NotILike")]:
+                u.fn(path, "trait PgExpr: ExprTrait", nm, ret="r", props=PE, key="PgExpr::" + nm, vpath="PgExpr::" + nm, rules=rr,
+                     spec="ensures r == bin(self.sp_expr(), BinOper::PgOperator(PgBinOper::%s), like.sp_like().sp_into())," % op)
+        u.emit("}\n")
     # ---- the inherent wrappers of SimpleExpr and Expr ----------------------------------------------------------------------------------------------
     r_pub = make_r_sub("R-inherent", r"^(\s*)pub fn", r"\1fn", flags=re.M, min_count=0)
     for ty, blk in [("SimpleExpr", "impl SimpleExpr"), ("Expr", "impl Expr")]:
